@@ -231,6 +231,16 @@ def _schedule_problems(P, S, require_all):
     return out
 
 
+def _mask_respecting(ev):
+    """Was every component of the joint action of step event `ev` offered by the mask the agent saw?"""
+    O0 = ev.O0
+    if O0 is None or "action_mask" not in O0:
+        return True
+    m = np.asarray(O0["action_mask"]).astype(bool)
+    a = [int(x) for x in np.asarray(ev.action)]
+    return all(0 <= a[k] < m.shape[1] and bool(m[k, a[k]]) for k in range(len(a)))
+
+
 def hard_constraints(P, trace):
     out = []
     J, M = P.params["J"], P.params["M"]
@@ -238,6 +248,10 @@ def hard_constraints(P, trace):
     if "n_seen" not in sh:
         sh.update(n_seen=1, busy={m: [] for m in range(M)}, jobs={j: [] for j in range(J)}, started=[])
     for ev in trace[sh["n_seen"]:]:
+        if not _mask_respecting(ev):
+            sh["void"] = True
+        if sh.get("void"):
+            break
         S0 = ev.S0
         t = int(S0["step_count"])
         a = [int(x) for x in np.asarray(ev.action)]
@@ -265,6 +279,8 @@ def hard_constraints(P, trace):
             sh["jobs"][j].append((t, t + d, m, o))
             sh["started"].append((j, o, t))
     sh["n_seen"] = len(trace)
+    if sh.get("void"):
+        return []  # a masked-out action was played: outside the statement from here on
     S = trace[-1].S
     out.extend(_schedule_problems(P, S, require_all=False))
     # the state's schedule must be the one the monitor saw being built
@@ -283,6 +299,8 @@ def _all_scheduled(S):
 
 
 def complete(P, trace):
+    if not all(_mask_respecting(e) for e in trace[1:]):
+        return None
     S = trace[-1].S
     if not _all_scheduled(S) or float(trace[-1].reward) != -1.0:
         return None  # ended by the idle penalty
@@ -294,6 +312,8 @@ def complete(P, trace):
 
 
 def objective(P, trace):
+    if not all(_mask_respecting(e) for e in trace[1:]):
+        return None
     S = trace[-1].S
     if not _all_scheduled(S) or bool(np.any(S["machines_remaining_times"] != 0)) or float(trace[-1].reward) != -1.0:
         return None  # idle-penalty endings have no objective value in the property statement
